@@ -199,8 +199,8 @@ def h_switch(ctx, n, big=False):
 
 def obligations(tier):
   thorough = tier != 'quick'
-  ns_c = [8, 12, 16] + ([20, 24] if thorough else [])
-  ns_s = [4, 8, 12, 16] + ([20, 24] if thorough else [])
+  ns_c = [8, 12, 16] + ([20] if thorough else [])
+  ns_s = [4, 8, 12, 16] + ([20] if thorough else [])
   BOUNDS[tier] = dict(controller_buffer_bytes=ns_c, switch_buffer_bytes=ns_s, content="all bytes unconstrained",
                       placement="between two valid echo requests on a sibling connection",
                       big_message="switch side: one 65535-byte buffer, version 1, six types, symbolic xid, declared length 0xffe0..0xffff, zero body")
